@@ -79,7 +79,8 @@ int main (int argc, char** argv)
     const double mats[][8] = {
       {1,0, 0,0, 0,0, 1,0}, {2,0, 0,0, 0,0, 0.5,0}, {1,0, 1,0, 0,0, 1,0}, {0,1, 0,0, 0,0, 0,1}, {0,0, 1,0, -1,0, 0,0},
       {1,2, 3,4, 5,6, 7,8}, {1,0, 2,0, 3,0, 4,0}, {0.6,0, -0.8,0, 0.8,0, 0.6,0}, {1,1, 1,-1, 1,-1, 1,1}, {3,0, 1,2, 1,-2, 2,0},
-      {1e3,0, 1,0, 0,0, 1e-3,0}, {0,1, 2,0, 0,0, 0,-1}, {-1,0, 0,0, 0,0, 1,0} };
+      {1e3,0, 1,0, 0,0, 1e-3,0}, {0,1, 2,0, 0,0, 0,-1}, {-1,0, 0,0, 0,0, 1,0},
+      {1+1e-9,0, 0,0, 0,0, 1-1e-9,0}, {1,0, 2e-9,1e-9, 2e-9,-1e-9, 1,0}, {0.6,0.8, 1e-10,0, 1e-10,0, 0.6,-0.8} };   // a unitary times a weak boost
     for (auto& m : mats) for (double scale : { 1.0, 1e-8, 1e6, 1e-140, 1e-100, 1e-40, 1e40, 1e100, 1e140 }) {
       Jones<double> j (cd (m[0],m[1])*scale, cd (m[2],m[3])*scale, cd (m[4],m[5])*scale, cd (m[6],m[7])*scale);
       cd d; Quaternion<double,Hermitian> h; Quaternion<double,Unitary> u;
@@ -108,7 +109,8 @@ int main (int argc, char** argv)
     } }, 1);
   // non-singular PSD quaternions over many scales, double and single precision: the root squares back (relative error)
   fn ("hsqrt_scales_plain", [] {
-    const double quads[][4] = { {1,0,0,0}, {2,0.5,-0.25,1}, {1,0.3,0.2,-0.1}, {5,3,0,-3.5}, {1,0.6,0,0.79}, {3,-1,2,1.9}, {1,0,0,0.999} };
+    const double quads[][4] = { {1,0,0,0}, {2,0.5,-0.25,1}, {1,0.3,0.2,-0.1}, {5,3,0,-3.5}, {1,0.6,0,0.79}, {3,-1,2,1.9}, {1,0,0,0.999},
+                                {1,1e-6,0,0}, {1,1e-9,0,0}, {1,3e-10,-4e-10,1e-12}, {2,0,1e-12,0}, {1,1e-15,1e-15,-1e-15}, {7,0,0,1e-8} };   // nearly a multiple of the identity
     for (auto& q : quads) for (double scale : { 1.0, 1e-3, 1e-6, 1e-8, 1e-9, 1e-12, 1e-30, 1e-100, 1e-140, 1e3, 1e8, 1e30, 1e100, 1e140 }) {
       Quaternion<double,Hermitian> h (q[0]*scale, q[1]*scale, q[2]*scale, q[3]*scale); Quaternion<double,Hermitian> r = sqrt (h);
       Jones<double> rr = r * r, hh = convert (h); char what[200];
